@@ -21,6 +21,8 @@ Templates ==
     \* worthless shares liquidated for a fee: no proceeds, but USD cash moves
     Act("LIQ", "BAR", "USD", <<-2, 0>>, <<0, 0>>, <<-25, 1>>, <<-25, 1>>, "Margin", "111"),
     Act("DIV", "BAR", "USD", <<0, 0>>, <<0, 0>>, <<0, 0>>, <<315, 2>>, "Margin", "111"),
+    \* a dividend taken back (reversal / correction): USD cash leaves the account
+    Act("DIV", "BAR", "USD", <<0, 0>>, <<0, 0>>, <<0, 0>>, <<-61, 0>>, "Margin", "111"),
     Act("FXT", "", "CAD", <<0, 0>>, <<0, 0>>, <<0, 0>>, <<-130, 0>>, "Margin", "111"),
     Act("FXT", "", "USD", <<0, 0>>, <<0, 0>>, <<0, 0>>, <<100, 0>>, "Margin", "111"),
     Act("DEP", "", "CAD", <<0, 0>>, <<0, 0>>, <<0, 0>>, <<1000, 0>>, "Margin", "111"),
